@@ -2,6 +2,7 @@ package main
 
 import (
 	"bytes"
+	"crypto/sha256"
 	"encoding/hex"
 	"fmt"
 
@@ -79,12 +80,29 @@ func genAffix(r *vh.Rng) []byte {
 	return r.Bytes(r.Intn(24))
 }
 
+// collidingKey searches a fresh 32-byte key whose 2-byte AcraBlock key id (sha256(key||ctx)[:2]) equals
+// that of key: a rotated key with a colliding id must not stop the search for the right key.
+func collidingKey(r *vh.Rng, key, ctx []byte) []byte {
+	want := sha256.Sum256(append(append([]byte{}, key...), ctx...))
+	for i := 0; i < 4000000; i++ {
+		k := r.Bytes(32)
+		h := sha256.Sum256(append(append([]byte{}, k...), ctx...))
+		if h[0] == want[0] && h[1] == want[1] {
+			return k
+		}
+	}
+	return r.Bytes(32)
+}
+
 func rotate(r *vh.Rng, ks *vh.KeySet) {
 	if r.Bool() {
 		ks.Seeds = append([][]byte{r.Bytes(32)}, ks.Seeds...)
 	}
-	if r.Bool() {
+	switch r.Intn(4) {
+	case 0, 1:
 		ks.Syms = append([][]byte{r.Bytes(32)}, ks.Syms...)
+	case 2: // the newer key has the SAME 2-byte key id as the key in use (handlers use an empty context)
+		ks.Syms = append([][]byte{collidingKey(r, ks.Syms[0], nil)}, ks.Syms...)
 	}
 }
 
@@ -196,7 +214,12 @@ func runC01(rep *vh.Report, r *vh.Rng, n int, thorough bool) {
 			b := e.AbCreate(lab+" CreateAcraBlock", x, ks.Syms[len(ks.Syms)-1], ctx)
 			if b.Kind == "ok" {
 				e.AbExtract(lab+" ExtractAcraBlockFromData", append(append([]byte{}, b.Vals[0]...), suf...))
-				d := e.AbDecrypt(lab+" AcraBlock.Decrypt", b.Vals[0], ks.Syms, ctx)
+				keys := ks.Syms
+				if sc%2 == 0 {
+					keys = append([][]byte{collidingKey(r, ks.Syms[len(ks.Syms)-1], ctx)}, ks.Syms...)
+					rep.Count("colliding-key-id")
+				}
+				d := e.AbDecrypt(lab+" AcraBlock.Decrypt", b.Vals[0], keys, ctx)
 				rep.OracleChecks++
 				if d.Kind != "ok" || !bytes.Equal(d.Vals[0], x) {
 					rep.Violate("roundtrip", "AcraBlock round trip failed", lab)
